@@ -332,7 +332,7 @@ __CPROVER_ensures(!__CPROVER_return_value == !xv_tmg.expired_ret && xv_tmg.expir
         XV_TD_UCNT_OK(xv_tmg.creates) && XV_TD_CNT_OK(xv_timers) && XV_TD_CNT_OK(xv_tmgrs) && xv_tmgrs > 0 && \
         XV_TD_UCNT_OK(xv_ar.process_fd_n) && XV_TD_UCNT_OK(xv_ar.process_n) && XV_TD_UCNT_OK(xv_ar.getsock_n) && XV_TD_UCNT_OK(xv_ar.timeout_n) && XV_TD_UCNT_OK(xv_ar.destroys) && \
         XV_TD_UCNT_OK(xv_ar.inits) && XV_TD_UCNT_OK(xv_ar.gai_n) && XV_TD_UCNT_OK(xv_ar.free_n) && XV_TD_UCNT_OK(xv_ar.cb_n) && XV_TD_UCNT_OK(xv_ar.tv2f_n) && XV_TD_UCNT_OK(xv_ar.pfd_j) && \
-        XV_TD_CNT_OK(xv_ar.channels) && xv_ar.channels > 0 && XV_TD_CNT_OK(xv_ar.results) && xv_tmg.mgr_fd >= 0)
+        XV_TD_CNT_OK(xv_ar.channels) && xv_ar.channels > 0 && XV_TD_CNT_OK(xv_ar.results) && xv_tmg.mgr_fd >= 0 && xv_tmg.last_id < (1L << 62) - 64)
 #define XQ_FRESH(q) (__CPROVER_is_fresh(q, sizeof(struct xcm_dns_query)))
 #define XQ_CHANNEL_FRESH(q) (__CPROVER_is_fresh((q)->channel, sizeof(struct ares_channeldata)))
 /* the invariant of a query between two calls of the interface */
